@@ -1,0 +1,51 @@
+//go:build verif
+
+package reassembly
+
+import "time"
+
+// Read-only observation hooks for external conformance checking (build tag "verif").
+// They expose scalar state only and change nothing.
+
+// VerifPagesUsed returns the number of pages currently handed out by this assembler's page cache.
+func (a *Assembler) VerifPagesUsed() int { return a.pc.used }
+
+// VerifConnCount returns the number of connections currently registered in the pool.
+func (p *StreamPool) VerifConnCount() int {
+	p.mu.RLock()
+	defer p.mu.RUnlock()
+	return len(p.conns)
+}
+
+// VerifHalfState describes one half connection.
+type VerifHalfState struct {
+	Pages    int       // half.pages as accounted by the assembler
+	Queued   int       // pages actually linked in the out-of-order list
+	Saved    int       // pages actually linked in the saved list
+	Oldest   time.Time // oldest 'seen' of a queued page (zero if none)
+	Closed   bool
+	LastSeen time.Time
+}
+
+// VerifHalves returns the state of both halves of every connection in the pool.
+func (p *StreamPool) VerifHalves() []VerifHalfState {
+	var out []VerifHalfState
+	for _, c := range p.connections() {
+		c.mu.Lock()
+		for _, h := range []*halfconnection{&c.c2s, &c.s2c} {
+			st := VerifHalfState{Pages: h.pages, Closed: h.closed, LastSeen: h.lastSeen}
+			for pg := h.first; pg != nil; pg = pg.next {
+				st.Queued++
+				if st.Oldest.IsZero() || pg.seen.Before(st.Oldest) {
+					st.Oldest = pg.seen
+				}
+			}
+			for pg := h.saved; pg != nil; pg = pg.next {
+				st.Saved++
+			}
+			out = append(out, st)
+		}
+		c.mu.Unlock()
+	}
+	return out
+}
